@@ -537,6 +537,90 @@ func run(r *mon.Run) {
 		}
 	}
 
+	// (f) results that are returned as byte slices must stay what they were while other calls are made
+	// (a serializer handing out a slice of a reused / pooled buffer is not a pure function of its input)
+	if r.Shard == 0 {
+		type held struct {
+			name string
+			got  []byte
+			snap []byte
+		}
+		producers := []struct {
+			name string
+			f    func(k int) []byte
+		}{
+			{"Response.EncodeHeader", func(k int) []byte {
+				b, _ := (bundle.Response{Status: 200 + k, Header: http.Header{"Content-Type": {"text/plain"}, fmt.Sprintf("X-K%d", k): {fmt.Sprint(k * 7)}}}).EncodeHeader()
+				return b
+			}},
+			{"Response.HeaderSha256", func(k int) []byte {
+				b, _ := (bundle.Response{Status: 300 + k, Header: http.Header{"A": {fmt.Sprint(k)}}}).HeaderSha256()
+				return b
+			}},
+			{"SignedSubset.Encode", func(k int) []byte {
+				ss := buildSubset(r.Rand("order-f", k))
+				ss.Date = fixedDate.Add(time.Duration(k) * time.Second)
+				b, _ := ss.Encode()
+				return b
+			}},
+			{"IntegrityBlock.CborBytes", func(k int) []byte {
+				ib := &integrityblock.IntegrityBlock{Magic: integrityblock.IntegrityBlockMagic, Version: integrityblock.VersionB1, SignatureStack: []*integrityblock.IntegritySignature{{SignatureAttributes: buildAttrs(r.Rand("order-f2", k), k%3), Signature: bytes.Repeat([]byte{byte(k)}, 64)}}}
+				b, _ := ib.CborBytes()
+				return b
+			}},
+			{"GenerateDataToBeSigned", func(k int) []byte {
+				b, _ := integrityblock.GenerateDataToBeSigned(bytes.Repeat([]byte{byte(k)}, 64), []byte{0x83, byte(k)}, buildAttrs(r.Rand("order-f3", k), 1))
+				return b
+			}},
+			{"bundle Version.HeaderMagicBytes", func(k int) []byte { return []bver.Version{bver.VersionB1, bver.VersionB2}[k%2].HeaderMagicBytes() }},
+			{"sxg Version.HeaderMagicBytes", func(k int) []byte { return gen.SXGVersions[k%3].HeaderMagicBytes() }},
+			{"AugmentedCertificate.CertSha256", func(k int) []byte { return []*certurl.AugmentedCertificate{idA.Chain[0], idB.Chain[0]}[k%2].CertSha256() }},
+			{"MapEntryEncoder.KeyBytes", func(k int) []byte {
+				return cbor.GenerateMapEntry(func(ke, ve *cbor.Encoder) { ke.EncodeTextString(fmt.Sprintf("key-%d", k)); ve.EncodeUint(uint64(k)) }).KeyBytes()
+			}},
+		}
+		var hs []held
+		for round := 0; round < 6; round++ {
+			for _, p := range producers {
+				b := p.f(round)
+				hs = append(hs, held{p.name, b, append([]byte{}, b...)})
+			}
+			// unrelated serializer calls in between
+			for _, o := range all {
+				record(0, o, "retention", "between-retained-results", o.build(r.Rand("order-f4", round)), &yieldingWriter{})
+			}
+		}
+		// concurrent variant: each goroutine keeps its result across a yield while the others produce theirs
+		var mu sync.Mutex
+		var wg sync.WaitGroup
+		for gi := 0; gi < 16; gi++ {
+			wg.Add(1)
+			go func(gi int) {
+				defer wg.Done()
+				for k := 0; k < 20; k++ {
+					p := producers[(gi+k)%len(producers)]
+					b := p.f(gi*100 + k)
+					snap := append([]byte{}, b...)
+					runtime.Gosched()
+					time.Sleep(time.Duration(k%5) * 10 * time.Microsecond)
+					mu.Lock()
+					hs = append(hs, held{p.name + "(concurrent)", b, snap})
+					mu.Unlock()
+				}
+			}(gi)
+		}
+		wg.Wait()
+		for _, h := range hs {
+			outcome := "retained-result-stable"
+			if !bytes.Equal(h.got, h.snap) {
+				outcome = "RETAINED-RESULT-CHANGED"
+				r.Violation("pure:retained:"+h.name, fmt.Sprintf("the byte slice returned by %s changed after later calls (it aliases reused memory): was %s, now %s", h.name, mon.Short(h.snap), mon.Short(h.got)), nil)
+			}
+			r.Eval("retention:" + outcome)
+			r.Distinct("retention|" + h.name)
+		}
+	}
+
 	// (d) concurrent use of shared read-only inputs
 	interleavings := map[string]bool{}
 	shared := make([]any, len(all))
